@@ -94,6 +94,27 @@ Proof.
   rewrite <- filter_app. f_equal. apply routed_fifo.
 Qed.
 
+(* the same in terms of the harness observable (packet value stamped with the receiving stream) *)
+Lemma stamp_own p : stamp (p_stream p) p = p.
+Proof. destruct p; reflexivity. Qed.
+
+Lemma delivered_own done : Forall own done ->
+  flat_map (fun e : rpk * option Z => match snd e with Some k => [stamp k (r_pkt (fst e))] | None => [] end) done =
+  map (fun e => r_pkt (fst e)) done.
+Proof.
+  induction 1 as [|[p k] l Hx Hl IH]; cbn; auto.
+  unfold own in Hx. cbn in Hx. subst k. unfold r_bind. rewrite stamp_own, IH. reflexivity.
+Qed.
+
+Lemma routed_delivered_fifo r b t ops :
+  let s := rrun ByWriter (rinit r b t) ops in
+  rs_delivered s ++ map r_pkt (rs_local s ++ rs_chan s) = map r_pkt (rs_accepted s).
+Proof.
+  intros s. unfold rs_delivered. rewrite delivered_own by (apply rrun_own; constructor).
+  pose proof (routed_fifo ByWriter r b t ops) as H. cbv zeta in H. fold s in H.
+  rewrite <- H, !map_app, map_map. reflexivity.
+Qed.
+
 (* ================= (d) a packet is accepted only on a binding that exists ================= *)
 Lemma bound_snoc infos i k : bound infos k = true -> bound (infos ++ [i]) k = true.
 Proof. unfold bound. rewrite app_length. cbn. lia. Qed.
@@ -138,17 +159,24 @@ Proof.
     rewrite <- IH. f_equal. rewrite map_app. reflexivity.
 Qed.
 
+Lemma zstate_mk a b c d e f g : zstate (mkRS a b c d e f g) =
+  mkRS (map (fun _ => 0) a) (map zp b) (map zp c) d (map zp e) (map ze f) g.
+Proof. reflexivity. Qed.
+
 Lemma rstep_z s o : zstate (rstep ByWriter s o) = rstep ByWriter (zstate s) (strip o).
 Proof.
   destruct o as [i|p hs| |now|t r bu]; cbn [rstep strip].
   - unfold zstate. cbn. rewrite map_app. reflexivity.
-  - unfold zstate at 2. cbn [rs_infos rs_chan]. unfold bound. rewrite !map_length.
-    fold (bound (rs_infos s) (p_stream p)).
-    destruct (negb _); [reflexivity|]. destruct (_ <=? _); [reflexivity|].
+  - assert (B : bound (rs_infos (zstate s)) (p_stream p) = bound (rs_infos s) (p_stream p))
+      by (unfold bound, zstate; cbn; rewrite map_length; reflexivity).
+    assert (L : length (rs_chan (zstate s)) = length (rs_chan s)) by (unfold zstate; cbn; apply map_length).
+    rewrite B, L. destruct (negb _); [reflexivity|]. destruct (_ <=? _); [reflexivity|].
     unfold zstate. cbn. rewrite !map_app. reflexivity.
-  - unfold zstate at 2. cbn [rs_chan]. destruct (rs_chan s) as [|p tl]; [reflexivity|]. unfold zstate. cbn. rewrite map_app. reflexivity.
-  - unfold zstate at 2. cbn [rs_infos rs_local rs_tb rs_done rs_bits rs_chan rs_accepted]. rewrite map_length, rrelease_z.
-    destruct (rrelease _ _ _ _ _ _ _ _) as [[[q b] done] bits]. reflexivity.
+  - destruct s as [infos ch lo tb0 ac dn bits]. unfold zstate. cbn [rs_infos rs_chan rs_local rs_tb rs_accepted rs_done rs_bits].
+    destruct ch as [|p tl]; [reflexivity|]. cbn. rewrite map_app. reflexivity.
+  - destruct s as [infos ch lo tb0 ac dn bits]. rewrite !zstate_mk. cbn [rs_infos rs_chan rs_local rs_tb rs_accepted rs_done rs_bits].
+    rewrite map_length, rrelease_z.
+    destruct (rrelease _ _ _ _ _ _ _ _) as [[[q b] done] bits']. reflexivity.
   - reflexivity.
 Qed.
 
@@ -204,18 +232,23 @@ Proof.
     rewrite <- IH. f_equal. rewrite map_app. reflexivity.
 Qed.
 
+Lemma rproj_mk a b c d e f g : rproj (mkRS a b c d e f g) =
+  mkPS (map r_pkt b) (map r_pkt c) d false (map r_pkt e) (map (fun e => r_pkt (fst e)) f) g.
+Proof. reflexivity. Qed.
+
 Lemma rstep_proj m s o : rproj (rstep m s o) = prun (rproj s) (pops s o).
 Proof.
-  destruct o as [i|p hs| |now|t r bu]; cbn [rstep pops].
+  destruct s as [infos ch lo tb0 ac dn bits].
+  destruct o as [i|p hs| |now|t r bu]; cbn [rstep pops rs_infos rs_chan rs_local rs_tb rs_accepted rs_done rs_bits].
   - reflexivity.
-  - destruct (bound (rs_infos s) (p_stream p)); cbn [negb]; [|reflexivity].
-    unfold prun. cbn [fold_left pstep]. unfold rproj at 2 3. cbn [ps_closed ps_chan]. rewrite map_length.
-    destruct (_ <=? _); [reflexivity|]. unfold rproj. cbn. rewrite !map_app. reflexivity.
-  - unfold prun. cbn [fold_left pstep]. unfold rproj at 2. cbn [ps_chan]. destruct (rs_chan s) as [|p tl]; [reflexivity|].
-    unfold rproj. cbn. rewrite map_app. reflexivity.
-  - unfold prun. cbn [fold_left pstep]. unfold rproj at 2 3 4 5 6. cbn [ps_local ps_tb ps_delivered ps_bits].
-    rewrite map_length, (rrelease_proj m (rs_infos s)).
-    destruct (rrelease _ _ _ _ _ _ _ _) as [[[q b] done] bits]. reflexivity.
+  - destruct (bound infos (p_stream p)); cbn [negb]; [|reflexivity].
+    unfold prun, rproj. cbn [fold_left pstep rs_infos rs_chan rs_local rs_tb rs_accepted rs_done rs_bits ps_closed ps_chan ps_local ps_tb ps_accepted ps_delivered ps_bits].
+    rewrite map_length. destruct (_ <=? _); [reflexivity|]. cbn. rewrite !map_app. reflexivity.
+  - unfold prun, rproj. cbn [fold_left pstep rs_infos rs_chan rs_local rs_tb rs_accepted rs_done rs_bits ps_closed ps_chan ps_local ps_tb ps_accepted ps_delivered ps_bits].
+    destruct ch as [|p tl]; [reflexivity|]. cbn. rewrite map_app. reflexivity.
+  - unfold prun. rewrite !rproj_mk. cbn [fold_left pstep rs_infos rs_chan rs_local rs_tb rs_accepted rs_done rs_bits ps_closed ps_chan ps_local ps_tb ps_accepted ps_delivered ps_bits].
+    rewrite map_length, (rrelease_proj m infos).
+    destruct (rrelease _ _ _ _ _ _ _ _) as [[[q b] done] bits']. reflexivity.
   - reflexivity.
 Qed.
 
@@ -225,7 +258,7 @@ Proof. unfold prun. apply fold_left_app. Qed.
 Lemma rrun_proj m s ops : rproj (rrun m s ops) = prun (rproj s) (pops_of m s ops).
 Proof.
   revert s; induction ops as [|o tl IH]; intros s; cbn [pops_of]; [reflexivity|].
-  rewrite prun_app, <- rstep_proj, <- IH. reflexivity.
+  rewrite prun_app, <- (rstep_proj m), <- IH. reflexivity.
 Qed.
 
 Definition rrates_ok (ops : list rop) : Prop :=
@@ -235,8 +268,12 @@ Lemma pops_of_rates m s ops : rrates_ok ops -> rates_ok (pops_of m s ops).
 Proof.
   unfold rrates_ok, rates_ok. revert s; induction ops as [|o tl IH]; intros s H; cbn [pops_of]; [constructor|].
   inversion H as [|? ? Ho Htl]; subst. apply Forall_app. split; [|apply IH, Htl].
-  destruct o as [i|p hs| |now|t r bu]; cbn [pops]; repeat constructor; auto.
-  destruct (bound _ _); repeat constructor.
+  destruct o as [i|p hs| |now|t r bu]; cbn [pops].
+  - constructor.
+  - destruct (bound _ _); repeat constructor.
+  - repeat constructor.
+  - repeat constructor.
+  - constructor; [exact Ho|constructor].
 Qed.
 
 Lemma routed_embeds m r b t ops :
@@ -276,7 +313,7 @@ Proof.
   induction 1 as [|a l Ha Hl IH]; intros Hx; cbn.
   - constructor; [intros []|constructor].
   - constructor.
-    + rewrite in_app_iff. cbn. intros [C|[C|[]]]; [exact (Ha C)|]. apply Hx. left. exact C.
+    + rewrite in_app_iff. cbn. intros [C|[C|[]]]; [exact (Ha C)|]. apply Hx. left. symmetry. exact C.
     + apply IH. intros C. apply Hx. right. exact C.
 Qed.
 
@@ -327,7 +364,7 @@ Proof.
   unfold rrun. revert s; induction ops as [|o tl IH]; intros s [ND FL FC] D; cbn [fold_left]; auto.
   assert (E : rstep ByHeaderSSRC s o = rstep ByWriter s o).
   { destruct o as [i|p hs| |now|t r bu]; cbn [rstep]; auto. rewrite rrelease_tagged; auto. }
-  rewrite E. apply IH.
+  rewrite E. clear E. apply IH.
   - destruct o as [i|p hs| |now|t r bu]; cbn [rstep disciplined] in *.
     + destruct D as [Hi _]. constructor; cbn.
       * apply NoDup_snoc; auto.
